@@ -11,6 +11,7 @@
 //!                        once" (io error / refused connect / untrusted NXDOMAIN with zero delay,
 //!                        Busy back-pressure) or "trusted NXDOMAIN at once", and ≥ 1 is fast
 //!                        ⇒ the result is an answer (or the trusted NXDOMAIN)
+//!   tc-retry             a server that replied TC=1 is not asked over UDP again in the same lookup
 //!   nx-untrusted   (iv)  a lookup that ends with the NXDOMAIN of an untrusted server has tried
 //!                        every server first (the NXDOMAIN did not end the search)
 //!   sharing        (v)   callers that start while an identical lookup is in flight complete at
@@ -263,6 +264,27 @@ impl<'a> Judge<'a> {
             _ => {}
         }
 
+        // ---- truncated UDP reply is retried over TCP: within one lookup, a server that sent TC=1
+        // is never asked over UDP again (judged once per shared lookup, on its creator)
+        if exact_window && c.start == win.0 {
+            let evs: Vec<&Ev> = out.log.iter().filter(|e| e.q == c.q as i32 && e.t >= win.0 && e.t <= win.1).collect();
+            for (i, e) in evs.iter().enumerate() {
+                if e.kind != Kind::ReplyTrunc {
+                    continue;
+                }
+                // (a send at the completion instant may belong to the next lookup of this key)
+                if let Some(again) = evs[i + 1..].iter().find(|f| f.kind == Kind::Send && f.server == e.server && f.proto == 1 && f.t < win.1) {
+                    self.viol(
+                        "tc-retry",
+                        "udp-again-to-truncating-server",
+                        json!("after a TC=1 reply the same server is retried over TCP, not over UDP, within the same lookup"),
+                        json!({"truncated_reply": ev_json(e), "udp_again": ev_json(again), "detail": observed(out, c)}),
+                    );
+                    break;
+                }
+            }
+        }
+
         // ---- (iii) availability, conservative form
         let classes: Vec<Class> = scn.servers.iter().map(|s| classify(s, scn.timeout)).collect();
         if classes.iter().all(|c| *c != Class::Other) && classes.iter().any(|c| *c == Class::Fast) {
@@ -270,17 +292,11 @@ impl<'a> Judge<'a> {
             let any_trusted_nx = classes.iter().any(|c| *c == Class::TrustedNx);
             let good = okind == "ok" || (any_trusted_nx && okind == "nx-trusted");
             if !good {
-                // structural discriminator: what came back, and the last upstream reply before it
-                let last = out
-                    .log
-                    .iter()
-                    .filter(|e| e.q == c.q as i32 && e.t >= win.0 && e.t <= win.1 && !matches!(e.kind, Kind::Send | Kind::Connect | Kind::ConnectStart))
-                    .last()
-                    .map(|e| e.kind.name())
-                    .unwrap_or("none");
+                // structural discriminator: what came back, and whether a truncation was involved
+                let tc = out.log.iter().any(|e| e.kind == Kind::ReplyTrunc && e.q == c.q as i32 && e.t >= win.0 && e.t <= win.1);
                 self.viol(
                     "availability",
-                    &format!("got={okind}|last-reply={last}"),
+                    &format!("got={okind}{}", if tc { "|after-truncation" } else { "" }),
                     json!("all other servers fail without consuming time and one server answers within timeout/2 ⇒ the lookup returns an answer"),
                     observed(out, c),
                 );
